@@ -1,5 +1,6 @@
 """C11 - value comparison is a total preorder and every consumer agrees with it."""
 import ast
+from ..absint import Sym
 
 from ..core import Unrecognised, call_name, const_str, norm, walk_no_nested, is_name, if_chain
 from ..atoms import ATOMS, BARE_TYPE, AtomEval, Unknown
@@ -492,38 +493,9 @@ def operand_vars(func, rule, mod):
 
 
 def check_sign_tests(chk):
-    mod, func, branches, opvar = binary_branches(chk, 'C11.S')
-    left, right = operand_vars(func, 'C11.S', mod)
-    for op, cmpcls in REL.items():
-        bodies = branches.get(op)
-        if not bodies:
-            if None in branches and len([o for o in REL if o not in branches]) == 1:
-                bodies = branches[None]
-            else:
-                chk.bad('C11.S', mod, 'evaluate_expression', f'operator {op}', f'no dispatch branch for relational operator {op}')
-                continue
-        body = bodies[0]
-        rets = [s for s in body if isinstance(s, ast.Return)]
-        good = False
-        for r in rets:
-            v = r.value
-            if isinstance(v, ast.Compare) and len(v.ops) == 1 and isinstance(v.left, ast.Call) and call_name(v.left) == 'value_compare' \
-                    and norm(v.comparators[0]) == '0':
-                args = [norm(a) for a in v.left.args]
-                if args == [left, right] and isinstance(v.ops[0], cmpcls):
-                    good = True
-                elif args == [right, left] and isinstance(v.ops[0], {ast.Lt: ast.Gt, ast.Gt: ast.Lt, ast.LtE: ast.GtE, ast.GtE: ast.LtE, ast.Eq: ast.Eq, ast.NotEq: ast.NotEq}[cmpcls]):
-                    good = True
-                else:
-                    chk.bad('C11.S', mod, 'evaluate_expression', f"'{op}': {norm(v)}",
-                            f"operator {op} must be value_compare({left}, {right}) {op} 0; found {norm(v)}", node=r)
-                    good = None
-        if good:
-            chk.ok('C11.S', f"operator {op}: value_compare({left}, {right}) {op} 0")
-        elif good is False:
-            chk.bad('C11.S', mod, 'evaluate_expression', f"'{op}' branch",
-                    f"the branch of operator {op} does not return value_compare({left}, {right}) {op} 0 (the relational operators must be the sign tests of the value comparison)",
-                    node=body[0] if body else None)
+    from .. import evalsim
+    evalsim.report(chk, {'relational': 'C11.S'}, {'relational': '6 relational operators x value_compare result in {-1, 0, 1} x 3 operand type pairs: the result is the sign test of ONE call of '
+                                                               'value_compare on (left, right) (or the mirrored test on (right, left))'})
 
 
 # --------------------------------------------------------------------------- C11.U
@@ -640,63 +612,44 @@ def _row_of(node, fn):
 
 
 def _check_minmax(chk, lib, lf, name, cls, sym):
-    func = lf.func
-    cs = [n for n in walk_no_nested(func) if isinstance(n, ast.Call) and call_name(n) == 'value_compare']
-    for n in walk_no_nested(func):
-        if isinstance(n, ast.Call) and call_name(n) in ('min', 'max', 'sorted'):
-            chk.bad('C11.U', lib, lf.pyname, norm(n), f'{name} uses the host ordering ({call_name(n)}) on script values instead of the value comparison', node=n)
+    """abstract execution (E6l): the function applied to every argument list of length <= 3 over {null, a < b < c} returns the greatest / least
+    argument under the value order (null first), using only value_compare"""
+    from .. import libsim
+    it = libsim.LibInterp(chk.repo, lib, 'C11.U')
+    rank, lists = libsim.minmax_scenarios()
+    it.rank = rank
+    n = 0
+    bad = None
+    for values in lists:
+        if len({id(v) if v is not None else None for v in values}) != len(values) and any(values.count(v) > 1 for v in values if v is not None):
+            continue        # ties between equal opaque values: which one is returned is not observable
+        n += 1
+        try:
+            got = it.run(lf.func, [libsim.AList(list(values)), libsim.ADict({})])
+        except libsim.HostOrdering as ho:
+            chk.bad('C11.U', lib, lf.pyname, norm(ho.node)[:100] if ho.node is not None else name,
+                    f'{name} orders script values with a host operator / builtin ({norm(ho.node)[:60] if ho.node is not None else "?"}) instead of the value comparison: '
+                    f'null, booleans among numbers and mixed types are ordered differently or raise', node=ho.node)
             return
-    loops = [n for n in func.body if isinstance(n, ast.For)]
-    if len(cs) != 1 or len(loops) != 1:
-        raise Unrecognised('C11.U', f'{name}: expected one loop with one value_compare call', lib.rel)
-    loop = loops[0]
-    elem = loop.target.id if isinstance(loop.target, ast.Name) else None
-    call = cs[0]
-    par = getattr(call, '_parent', None)
-    args = [norm(a) for a in call.args]
-    res_var = args[1] if args and args[0] == elem else (args[0] if len(args) > 1 and args[1] == elem else None)
-    if not (isinstance(par, ast.Compare) and len(par.ops) == 1 and norm(par.comparators[0]) == '0' and res_var):
-        chk.bad('C11.U', lib, lf.pyname, norm(par if par is not None else call), f'{name} must replace its result when value_compare(value, result) {sym} 0', node=call)
-        return
-    op = par.ops[0]
-    swapped = args[0] != elem
-    want = cls if not swapped else {ast.Gt: ast.Lt, ast.Lt: ast.Gt}[cls]
-    if not isinstance(op, want):
-        chk.bad('C11.U', lib, lf.pyname, norm(par),
-                f'{name} replaces its result when {norm(par)}; a {"greatest" if name == "mathMax" else "least"} argument requires value_compare(value, result) {sym} 0', node=par)
-        return
-    # the test that guards the replacement must be exactly: first-element flag, else the comparison (no extra disjunct such as `result is None`)
-    ifnode = par
-    while ifnode is not None and not isinstance(ifnode, ast.If):
-        ifnode = getattr(ifnode, '_parent', None)
-    if ifnode is None or norm(ifnode.test) != norm(par):
-        chk.bad('C11.U', lib, lf.pyname, norm(ifnode.test) if ifnode is not None else norm(par),
-                f'{name}: the replacement test is not the bare comparison {norm(par)}; any other disjunct (e.g. treating a null result as "nothing seen yet") '
-                f'discards a least/greatest argument (null orders before everything)', node=par)
-        return
-    # seeded with the first value: the if-chain containing the comparison starts with a first-element flag whose branch assigns result = value and clears the flag
-    top = ifnode
-    while isinstance(getattr(top, '_parent', None), ast.If) and top in getattr(top, '_parent').orelse:
-        top = top._parent
-    seeded = False
-    if top is not ifnode and isinstance(top.test, ast.Name):
-        flag = top.test.id
-        assigns = {norm(s) for s in top.body}
-        inits = [s for s in func.body if isinstance(s, ast.Assign) and norm(s.targets[0]) == flag]
-        if f'{res_var} = {elem}' in assigns and f'{flag} = False' in assigns and inits and norm(inits[0].value) == 'True':
-            seeded = True
-    if not seeded:
-        chk.bad('C11.U', lib, lf.pyname, norm(top.test),
-                f'{name} is not seeded with its first argument under a first-element flag (result = value on the first iteration only); '
-                f'a null or falsy first argument would be skipped', node=top)
-        return
-    # the replacement assigns result = value, and the function returns result
-    rep = {norm(s) for s in ifnode.body}
-    rets = [n for n in func.body if isinstance(n, ast.Return)]
-    if f'{res_var} = {elem}' in rep and rets and norm(rets[-1].value) == res_var and norm(loop.iter) == (lf.args_param or ''):
-        chk.ok('C11.U', f'{name}: seeded with first argument, replaces when {norm(par)}, scans all of {norm(loop.iter)}')
+        rk = lambda v: -1 if v is None else rank[v.args[0]]
+        want = None
+        if values:
+            want = values[0]
+            for v in values[1:]:
+                if (rk(v) > rk(want)) if name == 'mathMax' else (rk(v) < rk(want)):
+                    want = v
+        if got[0] != 'value' or got[1] != want:
+            if bad is None:
+                bad = (values, got, want)
+    if bad:
+        values, got, want = bad
+        show = lambda v: 'null' if v is None else v.args[0] if isinstance(v, Sym) else repr(v)
+        chk.bad('C11.U', lib, lf.pyname, f'{name}({", ".join(show(v) for v in values)})',
+                f'abstract execution with null < a < b < c: {name}({", ".join(show(v) for v in values)}) gives {show(got[1]) if got[0] == "value" else got[:2]}; '
+                f'the {"greatest" if name == "mathMax" else "least"} argument under the value order is {show(want)} (null orders before everything and is a legitimate result)')
     else:
-        chk.bad('C11.U', lib, lf.pyname, norm(loop.iter), f'{name} must scan every argument, assign result = value on replacement and return result', node=loop)
+        chk.ok('C11.U', f'{name}: {n} argument lists of length <= 3 over {{null, a < b < c}}: the result is the {"greatest" if name == "mathMax" else "least"} argument under '
+               f'value_compare (null included), no host ordering (E6l)', count=n)
 
 
 def _check_sorts(chk, mod, fname, func, compare_names, allow_param_fn):
